@@ -60,6 +60,14 @@ func c15Alphas() []c15Alpha {
 			return out
 		}},
 		{"ints+nil", []ref.V{ref.Int(1), ref.Int(2), nil}, []any{1, 2, nil}, false, nil},
+		// integers beyond 2^53: distinct values that collapse when routed through float64
+		{"bigints", []ref.V{ref.Int(1 << 53), ref.Int(1<<53 + 1), ref.Int(1<<53 + 2)}, []any{1 << 53, 1<<53 + 1, 1<<53 + 2}, true, func(xs []any) any {
+			out := make([]int64, len(xs))
+			for i, x := range xs {
+				out[i] = int64(x.(int))
+			}
+			return out
+		}},
 		{"maps", []ref.V{ref.NewMap("k", ref.Int(1)), ref.NewMap("k", ref.Int(2)), ref.NewMap("k", nil), ref.NewMap()},
 			[]any{m("k", 1), m("k", 2), m("k", nil), m()}, false, func(xs []any) any {
 				out := make([]map[string]any, len(xs))
@@ -504,6 +512,88 @@ func c15Families(tier string) []explore.Family {
 			}
 		}})
 	}
+	// scaled family: lengths far beyond the exhaustive bound (thresholds such as 8, 16, 32, 64 ...), a few
+	// deterministic patterns per alphabet, every single filter and chain of two
+	lengths := []int{6, 7, 8, 9, 12, 13, 15, 16, 17, 20, 31, 32, 33, 50, 63, 64, 65, 100, 127, 128, 129, 255, 256, 257, 1000}
+	patterns := []string{"ascending", "descending", "constant", "alternating", "sawtooth"}
+	for _, a := range c15.alphas {
+		a := a
+		fams = append(fams, explore.Family{Name: "scaled-" + a.name, Count: int64(len(lengths) * len(patterns) * len(pipes)), Run: func(i int64, r *explore.Rec) {
+			rx := radix{i}
+			p, pat, n := pipes[rx.next(len(pipes))], patterns[rx.next(len(patterns))], lengths[rx.next(len(lengths))]
+			K := len(a.elems)
+			idx := make([]int, n)
+			for j := range idx {
+				switch pat {
+				case "ascending":
+					idx[j] = j * K / n
+				case "descending":
+					idx[j] = (n - 1 - j) * K / n
+				case "constant":
+					idx[j] = K - 1
+				case "alternating":
+					idx[j] = j % 2 * (K - 1)
+				default:
+					idx[j] = j % K
+				}
+			}
+			in := make(ref.List, n)
+			gos := make([]any, n)
+			for j, k := range idx {
+				in[j], gos[j] = a.elems[k], a.gos[k]
+			}
+			f := filters[p.f]
+			spelling := f.name
+			exp, exact := f.apply(in, a)
+			var g *c15Filter
+			if p.g >= 0 {
+				g = &filters[p.g]
+				spelling += " | " + g.name
+			}
+			scalar := f.scalar
+			if g != nil {
+				scalar = g.scalar
+			}
+			src := "{% assign r = a | " + spelling + " %}{% for x in r %}[{{ x }}]{% endfor %}#" + c15ShowA
+			if scalar {
+				src = "{{ a | " + spelling + " }}#" + c15ShowA
+			}
+			r.Eval()
+			r.Transition()
+			r.Trace()
+			before := explore.Snapshot(gos)
+			o := c15Render(src, map[string]any{"a": gos, "other": []any{9, "z", nil}})
+			desc := func() any {
+				return map[string]any{"template": src, "length": n, "pattern": pat, "alphabet": a.name, "other": `[9,"z",nil]`}
+			}
+			key := "scaled:" + spelling
+			if o.Panic != nil || o.Err != nil {
+				r.Violation("fails:"+key, desc(), "output", trunc80(o.String()))
+				return
+			}
+			if explore.Snapshot(gos) != before {
+				r.Violation("input-modified:"+key, desc(), "the bound array is unchanged", "changed")
+			}
+			parts := strings.Split(o.Out, "#")
+			if len(parts) < 2 || parts[1] != c15Show(in) {
+				r.Violation("input-modified:"+key, desc(), "input renders unchanged after the filter", trunc80(o.Out))
+				return
+			}
+			if g == nil {
+				c15Judge(r, key, desc, &f, a, in, exp, exact, parts[0])
+			} else if exact {
+				if mid, ok := exp.(ref.List); ok {
+					a2 := a
+					if strings.HasPrefix(f.name, "concat") || strings.HasPrefix(f.name, "map") {
+						a2 = c15Alpha{name: "mixed", homog: false}
+					}
+					exp2, exact2 := g.apply(mid, a2)
+					c15Judge(r, key, desc, g, a2, mid, exp2, exact2, parts[0])
+				}
+			}
+			r.State(fmt.Sprintf("%s:scaled", a.name))
+		}})
+	}
 	return fams
 }
 
@@ -533,8 +623,8 @@ func init() {
 	explore.Register(&explore.Prop{
 		ID:    "C15",
 		Level: "model_checking",
-		Rule: "all arrays of length <=3 (quick) / <=5 (thorough) over five element alphabets (ints, floats, strings, ints+nil, maps with present/absent/nil key), each in every Go representation that can hold it ([]any, typed slice, fixed array, Range), " +
-			"through each of 13 array filters and all chains of two of them; oracle = list functions of the reference model, permutation/order predicates for sort, non-mutation of the input inside the render, equality across representations; " +
+		Rule: "all arrays of length <=3 (quick) / <=5 (thorough) over six element alphabets (ints, floats, strings, ints+nil, integers beyond 2^53, maps with present/absent/nil key), each in every Go representation that can hold it ([]any, typed slice, fixed array, Range), " +
+			"through each of 13 array filters and all chains of two of them; plus a scaled family: lengths 6..1000 (25 lengths around powers of two) x 5 deterministic patterns per alphabet through every pipeline; oracle = list functions of the reference model, permutation/order predicates for sort, non-mutation of the input inside the render, equality across representations; " +
 			"state = (alphabet, length); transition = one pipeline on one representation; trace = one (array, pipeline) validated on the implementation",
 		Assumptions: []string{
 			"sort order between unlike kinds, with nil, and between maps is unspecified (permutation still required); sort stability is not required",
